@@ -184,6 +184,13 @@ MUTANTS = [
     ('C20', 'digest-no-realm', (R, HTTPAUTH, "    if auth_map['realm'] != kwargs.get('realm', None):\n        return False\n", ""), 'C20.c'),
     ('C20', 'forwarded-unguarded', (R, VHOSTS, "        if self.trusted_gateways is None or request.remote.ip in self.trusted_gateways:", "        if True:"), 'C20.e'),
     ('C20', 'fingerprint-ignores-agent', (R, SESSIONS, "    agent = request.headers.get('User-Agent', '')", "    agent = ''"), 'C20.d'),
+    ('C01', 'first-name-only', (R, MANAGER, "            for name in method.names:\n                self._handlers.setdefault(name, set()).add(method)\n", "            for name in method.names[:1]:\n                self._handlers.setdefault(name, set()).add(method)\n"), 'C01.h'),
+    ('C01', 'global-needs-no-channel-test', (R, MANAGER, "        if not method.names and method.channel == '*':\n            self._globals.add(method)", "        if not method.names:\n            self._globals.add(method)"), 'C01.h'),
+    ('C01', 'remove-first-name-only', (R, MANAGER, "            self._handlers[name].remove(method)\n", "            self._handlers[name].remove(method)\n            break\n"), 'C01.h'),
+    ('C01', 'priority-default-one', (R, 'circuits/core/handlers.py', "f.priority = kwargs.get('priority', 0)", "f.priority = kwargs.get('priority', 1)"), 'C01.h'),
+    ('C19', 'notify-not-dumped', (R, NODE_UTILS, "        'notify': e.notify,\n", ""), 'C19.j'),
+    ('C19', 'success-from-failure', (R, NODE_UTILS, "    e.success = bool(data['success'])", "    e.success = bool(data['failure'])"), 'C19.j'),
+    ('C19', 'value-errors-swapped', (R, NODE_UTILS, "    return data['value'], data['id'], data['errors'], meta", "    return data['value'], data['errors'], data['id'], meta"), 'C19.j'),
 ]
 
 # behaviour-preserving edits: the check of the property must stay silent
@@ -232,4 +239,6 @@ TWINS = [
     ('C20', 'session-positive-form', (R, SESSIONS, "    if user != who(request):\n        return create_session(request)\n\n    return sid", "    if user == who(request):\n        return sid\n\n    return create_session(request)"), None),
     ('C20', 'nested-none-test', (R, TOOLS, "        if password is not None and _httpauth.checkResponse(\n            ah, password, method=request.method, encrypt=encrypt, realm=realm\n        ):\n            request.login = ah['username']\n            return True",
                                  "        if password is not None:\n            if _httpauth.checkResponse(ah, password, method=request.method, encrypt=encrypt, realm=realm):\n                request.login = ah['username']\n                return True"), None),
+    ('C01', 'twin-addhandler-local-table', (R, MANAGER, "            for name in method.names:\n                self._handlers.setdefault(name, set()).add(method)\n", "            for evname in method.names:\n                self._handlers.setdefault(evname, set()).add(method)\n"), None),
+    ('C19', 'twin-dump-key-order', (R, NODE_UTILS, "        'id': id,\n        'name': e.name,\n", "        'name': e.name,\n        'id': id,\n"), None),
 ]
